@@ -222,6 +222,19 @@ impl<
     pub fn new(bits: B) -> Self {
         let num_ones = bits.count_zeros();
         let num_bits = max(1, bits.len());
+        // The backend might contain arbitrary bits beyond the length of the
+        // vector (in the last word, and in further words): they are not zeros
+        // of the vector and must be ignored
+        let num_words = bits.len().div_ceil(usize::BITS as usize);
+        let residual = bits.len() % usize::BITS as usize;
+        let word_at = |i: usize| {
+            let word = !bits.as_ref()[i];
+            if i + 1 == num_words && residual != 0 {
+                word & ((1 << residual) - 1)
+            } else {
+                word
+            }
+        };
         let inventory_size = num_ones.div_ceil(Self::ONES_PER_INVENTORY);
 
         // We use a smaller value than max_log2_u64_per_subinventory when with a
@@ -241,7 +254,7 @@ impl<
         let mut spilled = 0;
 
         // First phase: we build an inventory for each one out of ones_per_inventory.
-        for (i, word) in bits.as_ref().iter().copied().map(|b| !b).enumerate() {
+        for (i, word) in (0..num_words).map(|i| (i, word_at(i))) {
             let ones_in_word = (word.count_ones() as usize).min(num_ones - past_ones);
 
             while past_ones + ones_in_word > next_quantum {
@@ -356,7 +369,7 @@ impl<
             let bit_idx = start_bit_idx % usize::BITS as usize;
 
             // Clear the lower bits
-            let mut word = (!bits.as_ref()[word_idx] >> bit_idx) << bit_idx;
+            let mut word = (word_at(word_idx) >> bit_idx) << bit_idx;
 
             'outer: loop {
                 let ones_in_word = (word.count_ones() as usize).min(num_ones - past_ones);
@@ -459,7 +472,7 @@ impl<
                 }
 
                 // Read the next word
-                word = !bits.as_ref()[word_idx];
+                word = word_at(word_idx);
             }
 
             // If we are in the U32 case, we need to update the number of used
